@@ -197,7 +197,7 @@ def size(spec):
     return 1 + sum(size(s) for s in subtrees(spec))
 
 
-def gen_spec(rng, depth=3, dom=None, keep_only=False, patch=False, allow_list=False):
+def gen_spec(rng, depth=3, dom=None, keep_only=False, patch=False, allow_list=False, scheduled=True):
     """random transform tree of nesting depth <= depth over one input domain"""
     L = leaves()
     if dom is None:
@@ -210,7 +210,7 @@ def gen_spec(rng, depth=3, dom=None, keep_only=False, patch=False, allow_list=Fa
 
     if depth <= 0 or rng.random() < 0.3 or dom == "SEG":  # KDComposeTransform treats a tuple as several samples
         return leaf(keep_only)
-    kinds = ["compose", "compose", "apply", "scheduled"]
+    kinds = ["compose", "compose", "apply"] + (["scheduled"] if scheduled else [])
     if dom == "T" and not patch:
         kinds.append("patchwise")
     if allow_list:
@@ -218,13 +218,13 @@ def gen_spec(rng, depth=3, dom=None, keep_only=False, patch=False, allow_list=Fa
     k = rng.choice(kinds)
     if k in ("compose", "list"):
         n = rng.randint(1, 3)
-        items = [gen_spec(rng, depth - 1, dom, keep_only=(i < n - 1) or keep_only, patch=patch) for i in range(n)]
+        items = [gen_spec(rng, depth - 1, dom, keep_only=(i < n - 1) or keep_only, patch=patch, scheduled=scheduled) for i in range(n)]
         return {"t": k, "items": items}
     if k == "apply":
-        return {"t": "apply", "p": rng.choice([0.5, 0.5, 0.8, 1.0]), "item": gen_spec(rng, depth - 1, dom, True, patch)}
+        return {"t": "apply", "p": rng.choice([0.5, 0.5, 0.8, 1.0]), "item": gen_spec(rng, depth - 1, dom, True, patch, scheduled=scheduled)}
     if k == "scheduled":
         return {"t": "scheduled", "item": gen_spec(rng, depth - 1, dom, keep_only, patch)}
-    return {"t": "patchwise", "item": gen_spec(rng, depth - 1, "T", True, True)}
+    return {"t": "patchwise", "item": gen_spec(rng, depth - 1, "T", True, True, scheduled=scheduled)}
 
 
 def gen_entry(rng):
